@@ -174,10 +174,12 @@ func (e *Enc) oblige(kind, site string, pos token.Pos, goal string, props []stri
 	o := &Obligation{Name: name, Kind: kind, Func: fname, Props: props, Pos: e.posOf(pos), At: len(e.lines), Reach: e.curReach, Goal: goal, Clause: clause}
 	if e.fc != nil {
 		for _, u := range e.fc.Unproved {
-			if strings.Contains(name, u[0]) {
+			if (strings.HasSuffix(u[0], "$") && strings.HasSuffix(name, strings.TrimSuffix(u[0], "$"))) || (!strings.HasSuffix(u[0], "$") && strings.Contains(name, u[0])) {
 				// out of reach: assumed, listed, never counted
 				e.unproved = append(e.unproved, fmt.Sprintf("%s [%s]: %s", name, strings.Join(props, ","), u[1]))
-				e.assume(goal)
+				if goal != "false" { // a statically failed obligation cannot be assumed: everything after it would be vacuous
+					e.assume(goal)
+				}
 				return nil
 			}
 		}
@@ -391,6 +393,14 @@ func (e *Enc) run(f *frame, args []Val, st *State, reach string) {
 	f.loops = loops
 	if !f.top && len(loops) > 0 {
 		panic(unsupported("inlined function with loops: " + fn.String()))
+	}
+	if f.top && e.fc != nil {
+		// a clause attached to a loop that the function no longer has is contract drift, not a pass
+		for n, cl := range e.fc.Loops {
+			if n > len(loops) && len(cl) > 0 {
+				panic(contractErr{fmt.Sprintf("%s:%d: clause for loop %d, but %s has %d loop(s): the code no longer matches its contract", cl[0].File, cl[0].Line, n, fn.Name(), len(loops))})
+			}
+		}
 	}
 	prevFrame := e.curFrame
 	e.curFrame = f
